@@ -726,6 +726,32 @@ fn tokenise_entry<I: Iterator<Item = char>>(
                 token_octets.put_u8(octet);
                 State::UnquotedString
             }
+            // an unescaped parenthesis ends the token, it is not part of it
+            (State::UnquotedString, '(') => {
+                if !token_string.is_empty() {
+                    tokens.push((token_string, token_octets.freeze()));
+                    token_string = String::new();
+                    token_octets = BytesMut::new();
+                }
+                if line_continuation {
+                    return Err(Error::TokeniserUnexpected { unexpected: '(' });
+                }
+                line_continuation = true;
+                State::Initial
+            }
+            (State::UnquotedString, ')') => {
+                if !token_string.is_empty() {
+                    tokens.push((token_string, token_octets.freeze()));
+                    token_string = String::new();
+                    token_octets = BytesMut::new();
+                }
+                if line_continuation {
+                    line_continuation = false;
+                    State::Initial
+                } else {
+                    return Err(Error::TokeniserUnexpected { unexpected: ')' });
+                }
+            }
             (State::UnquotedString, c) => {
                 if c.is_whitespace() {
                     if !token_string.is_empty() {
